@@ -63,6 +63,8 @@ def run(rep, tier):
         ruleenum(rep, meta, g, sfx)
         unescaped(rep, meta, sfx)
     lexicon(rep, g)
+    tokens(rep, g, "")
+    tokens_generated(rep)
 
 
 def rule_of(n):
@@ -707,3 +709,101 @@ def lexicon(rep, g):
     r.instance("COMMENT", GRAMMAR, str(sorted(names)))
     if names != {"block_comment", "line_comment"}:
         r.violation("COMMENT", GRAMMAR, "COMMENT alternatives are %s" % sorted(names))
+
+
+# ------------------------------------------------------------------ TOKENS
+
+def _token_refs():
+    from .c18 import C, lit, HEX, DIGIT, SCALARS
+    from ..reglang import cls_complement, cls_intersect
+    def notin(s):
+        return ("cls", cls_intersect(cls_complement([(ord(c), ord(c)) for c in sorted(s)]), SCALARS))
+    alpha_ = C((0x41, 0x5A), (0x61, 0x7A), (0x5F, 0x5F))
+    alnum_ = C((0x30, 0x39), (0x41, 0x5A), (0x61, 0x7A), (0x5F, 0x5F))
+    esc = ("cat", [lit("\\"), ("alt", [
+        C(*[(ord(c), ord(c)) for c in "\"\\rnt0'"]),
+        ("cat", [lit("x"), ("rep", HEX, 2)]),
+        ("cat", [lit("u{"), ("rep", HEX, 2), ("opt", HEX), ("opt", HEX), ("opt", HEX), ("opt", HEX), lit("}")])])])
+    return {
+        # written from the grammar-syntax chapter of the pest book / the doc comments of grammar.pest
+        "number": (("plus", DIGIT), set()),
+        "integer": (("alt", [("plus", DIGIT), ("cat", [lit("-"), ("star", lit("0")), C((0x31, 0x39)), ("star", DIGIT)])]), set()),
+        "string": (("cat", [lit('"'), ("star", ("alt", [notin('"\\'), esc])), lit('"')]), set()),
+        "character": (("cat", [lit("'"), ("alt", [esc, notin("'\\")]), lit("'")]), set()),
+        "identifier": (("cat", [alpha_, ("star", alnum_)]), {"PUSH"}),
+        "tag_id": (("cat", [lit("#"), alpha_, ("star", alnum_)]), set()),
+    }
+
+
+def tokens(rep, g, tag, src=None):
+    from . import c18
+    from .. import reglang
+    src = src or GRAMMAR
+    r = rep.rule("C07.TOKENS" + tag, 6,
+                 "the lexical rules of the grammar language (number, integer, string, character with their escapes, "
+                 "identifier, tag) are regular, deterministic, and DFA-equivalent over all scalar values to the "
+                 "documented token syntax: every spelling the documentation allows is read, nothing else is")
+    lx = c18.Lex(g, r)
+    for name, (oracle, excl) in sorted(_token_refs().items()):
+        if name not in g:
+            r.violation("rule:" + name, src, "lexical rule %s is missing" % name)
+            continue
+        mod, e = g[name]
+        if mod not in ("@", "$"):
+            r.violation("atomic:" + name, src, "lexical rule %s is not atomic: implicit whitespace/comments would be "
+                        "accepted inside the token" % name)
+            continue
+        # leading `!"lit"` exclusions (identifier = !"PUSH" ~ ...)
+        got_excl = set()
+        if e[0] == "seq":
+            items = list(e[1])
+            while items and items[0][0] == "neg" and items[0][1][0] == "str":
+                got_excl.add(items[0][1][1])
+                items = items[1:]
+            e2 = ("seq", items) if len(items) != 1 else items[0]
+        else:
+            e2 = e
+        try:
+            saved = g[name]
+            g[name] = (mod, e2)
+            try:
+                rx = lx.rule_regex(name)
+            finally:
+                g[name] = saved
+        except c18.Undecidable as ex:
+            r.violation("regular:" + name, src, "rule %s is outside the decidable fragment: %s" % (name, ex))
+            continue
+        cnt = [0]
+        before = len(r.violations)
+        c18.determinacy(rx, [], r, name, cnt, src)
+        r.instance("determinacy:" + name, src, "%d conditions" % cnt[0])
+        classes = []
+        c18.collect_classes(rx, classes)
+        c18.collect_classes(oracle, classes)
+        atoms = reglang.Atoms(classes + [c18.SCALARS])
+        w, in_first = reglang.difference_word(c18.to_atoms(rx, atoms), c18.to_atoms(oracle, atoms), atoms.n)
+        r.instance("equiv:" + name, src, "%d alphabet atoms covering all scalars" % atoms.n)
+        if w is not None:
+            txt = c18.word_text(w, atoms)
+            r.violation("equiv:" + name, src,
+                        "rule %s %s %r (code points %s); the documented syntax %s it" % (
+                            name, "accepts" if in_first else "rejects", txt,
+                            " ".join(atoms.describe(a) for a in w), "rejects" if in_first else "accepts"))
+        if got_excl != excl:
+            r.violation("exclusion:" + name, src, "rule %s excludes prefixes %s, documented: %s" % (
+                name, sorted(got_excl), sorted(excl)))
+
+
+def tokens_generated(rep):
+    """The same comparison on the PEG decompiled from the checked-in grammar.rs (typed HIR of pest_meta), so a hand
+    edit of grammar.rs, or .pest and .rs changed together, is seen by the reader's property as well."""
+    from .. import decompile
+    meta = facts.facts("default").crate("pest_meta")
+    try:
+        rt = decompile.rule_terms(meta, "PestParser")
+        g = decompile.grammar(rt)
+    except decompile.NotUnderstood as e:
+        r = rep.rule("C07.TOKENS@generated", 0, "the checked-in grammar.rs decompiles to a PEG")
+        r.violation("decompile", "meta/src/grammar.rs", "grammar.rs is not understood: %s" % e)
+        return
+    tokens(rep, g, "@generated", "meta/src/grammar.rs")
